@@ -13,7 +13,7 @@ from vc import spec
 
 PROPERTY = {
     "id": "C12",
-    "claimed": False,       # work in progress, NOT registered: see DESIGN.md 12.3 (alarms on the unchanged tree are errors of the check)
+    "claimed": True,
     "level": "translation_validation",
     "engine": "tv",
     "technique": "validation under contract: the real SymbolicExecutionEngine is run on every IR program of a bounded family; the "
@@ -26,13 +26,20 @@ PROPERTY = {
                    "pointers read the state before the block). The real engine is executed on every program of a family "
                    "(blocks of 1-3 assignments from a pool of register moves, arithmetic, flag and condition computations, "
                    "memory loads and stores of 8/16/32 bits through register+constant, register+register and absolute "
-                   "pointers, read-after-write and swap patterns; sequences of 1-3 blocks); equality with the reference executor "
+                   "pointers, read-after-write and swap patterns, memory-to-memory copies with adjacent and overlapping cells "
+                   "read back unaligned; sequences of 1-3 blocks); equality with the reference executor "
                    "(z3 arrays, little endian) is proved for ALL initial values. Programs bounded; states unbounded.",
     "trusted_base": ["SPEC (vc/spec.py)", "z3 bit-vector / array theory", "the reference executor in props/C12.py"],
-    "assumptions": ["the documented non-aliasing proviso: the four registers used as pointer bases hold addresses in pairwise "
-                    "distant regions (any subset sum distinct) and absolute addresses are far from them",
-                    "pointers are built from initial register values and constants only (no pointer loaded from memory)",
-                    "memory destinations of one block do not overlap"],
+    "assumptions": ["the documented non-aliasing proviso, enforced BY CONSTRUCTION of the family (within_proviso): every pointer "
+                    "used by a program is a sum of distinct initial pointer registers plus a small constant; the four registers "
+                    "are assumed to hold addresses in regions 0x01/0x02/0x04/0x08 << 24 (+0x1000), so pointers built on "
+                    "different symbolic bases are >= ~2^24 apart and pointers on the same base are compared by exact offset",
+                    "programs of the pools that use any other pointer (loaded from memory, shifted, a register added twice) are "
+                    "outside the proviso for some initial state and are not part of the family (17% of the generated programs)",
+                    "memory destinations of one block do not overlap",
+                    "programs bounded: <= 3 blocks of <= 3 assignments from POOL (sampled for 2 and 3 blocks) plus every sequence of "
+                    "<= 3 one-assignment blocks from MEMPOOL; final state observed on all registers, the destination and 27 "
+                    "memory probes of 8/16/32 bits"],
 }
 
 EAX, EBX, ECX, EDX = [ExprId(n, 32) for n in ("EAX", "EBX", "ECX", "EDX")]
@@ -75,6 +82,21 @@ POOL = [
 ]
 
 
+# memory-centric assignments: every sequence of <= 3 one-assignment blocks over this pool is part of the family (memory-to-memory
+# copies with adjacent sources and destinations, overlapping and unaligned stores and loads on one base)
+MEMPOOL = [
+    (ExprMem(EBX + I(8), 32), ExprMem(EAX, 32)),
+    (ExprMem(EBX + I(12), 32), ExprMem(EAX + I(4), 32)),
+    (ExprMem(EBX + I(10), 16), ECX[0:16]),
+    (ExprMem(EBX + I(11), 8), ExprMem(EAX + I(1), 8)),
+    (ExprMem(EBX + I(6), 32), EDX),
+    (EDX, ExprMem(EBX + I(10), 32)),
+    (ECX, ExprMem(EBX + I(11), 16).zeroExtend(32)),
+    (ExprMem(EAX + I(2), 16), ExprMem(EBX + I(9), 16)),
+    (EAX, EAX + I(4)),
+]
+
+
 def mem_range(dst):
     return (str(dst.ptr), dst.size)
 
@@ -107,7 +129,77 @@ def blocks(tier):
     return out
 
 
+def abstract(e, regs):
+    """value of e as {initial register: coefficient} + constant, or None when it is anything else (loaded from memory, flag,
+    condition, shift, xor...)"""
+    if e.is_int():
+        return ({}, int(e))
+    if e.is_id():
+        return regs.get(e)
+    if e.is_op("+"):
+        coeffs, const = {}, 0
+        for a in e.args:
+            v = abstract(a, regs)
+            if v is None:
+                return None
+            for r, c in v[0].items():
+                coeffs[r] = coeffs.get(r, 0) + c
+            const += v[1]
+        return (coeffs, const & 0xFFFFFFFF)
+    return None
+
+
+def pointers_of(e, out):
+    if e.is_mem():
+        out.append(e.ptr)
+        pointers_of(e.ptr, out)
+    elif e.is_op() or e.is_compose():
+        for a in e.args:
+            pointers_of(a, out)
+    elif e.is_cond():
+        pointers_of(e.cond, out), pointers_of(e.src1, out), pointers_of(e.src2, out)
+    elif e.is_slice():
+        pointers_of(e.arg, out)
+
+
+def within_proviso(prog):
+    """The property holds 'provided memory addresses built on different symbolic bases do not alias'.  The family is kept inside
+    that proviso BY CONSTRUCTION: every pointer used by the program must be a sum of DISTINCT initial pointer registers plus a
+    small constant.  With the four registers assumed in regions 0x01/0x02/0x04/0x08 << 24 (Ref.assumptions) different sets of
+    registers give addresses at least ~2^24 apart, so two accesses alias only if they are built on the same symbolic base, where
+    the engine compares offsets exactly.  A program using any other pointer (loaded from memory, shifted, a register added
+    twice...) is outside the proviso for some initial states and is not part of the family."""
+    regs = dict((r, ({r: 1}, 0)) for r in (EAX, EBX, ECX, EDX))
+    for assigns in prog:
+        ptrs = []
+        for dst, src in assigns:
+            pointers_of(src, ptrs)
+            pointers_of(dst, ptrs)
+        for ptr in ptrs:
+            v = abstract(ptr, regs)
+            if v is None or any(c != 1 for c in v[0].values()) or not (v[1] < 0x800 or v[1] >= 0xFFFFF800 or not v[0]):
+                return False
+        new = dict(regs)
+        for dst, src in assigns:
+            if dst.is_id():
+                new[dst] = abstract(src, regs)
+        regs = new
+    return True
+
+
 def programs(tier):
+    progs = all_programs(tier)
+    for n in (1, 2, 3):
+        for seq in itertools.product(MEMPOOL, repeat=n):
+            progs.append([[a] for a in seq])
+    if tier == "thorough":
+        for seq in itertools.product(MEMPOOL, repeat=4):
+            if hash(tuple(map(str, seq))) % 5 == 0:
+                progs.append([[a] for a in seq])
+    return [p for p in progs if within_proviso(p)]
+
+
+def all_programs(tier):
     bl = blocks(tier)
     progs = [[b] for b in bl]
     k = 0
@@ -179,7 +271,8 @@ class Ref(object):
         return out
 
 
-PROBES = [EBX + I(4), EBX + I(5), EBX + I(6), EBX + I(7), EBX + I(8), EBX + I(2), EBX + I(3), ECX, ECX + I(3), EAX, I(0x1000), I(0x1002),
+PROBES = [EBX + I(9), EBX + I(10), EBX + I(11), EBX + I(12), EBX + I(13), EBX + I(14), EAX + I(1), EAX + I(2), EAX + I(4), EAX + I(6),
+          EBX + I(4), EBX + I(5), EBX + I(6), EBX + I(7), EBX + I(8), EBX + I(2), EBX + I(3), ECX, ECX + I(3), EAX, I(0x1000), I(0x1002),
           I(0x1003), I(0x1005), EBX + ECX + I(8), EBX + ECX + I(11), EBX + I(1)]
 
 
@@ -233,7 +326,7 @@ class ProgTarget(object):
         out.append(("destination", why is None, why or ""))
         for p in PROBES:
             a0, _ = spec.sem(p, env0)
-            for size in (8, 32):
+            for size in (8, 16, 32):
                 got, w = spec.sem(eng.symbols.read(ExprMem(p.canonize(), size)), env0)
                 want = z3.Concat(*[z3.Select(ref.mem, a0 + z3.BitVecVal(i, 32)) for i in reversed(range(size // 8))]) \
                     if size > 8 else z3.Select(ref.mem, a0)
@@ -291,5 +384,4 @@ class ProgTarget(object):
 def targets(tier):
     ps = programs(tier)
     n = 48
-    k = (len(ps) + n - 1) // n
-    return [ProgTarget("C12/programs/chunk%d" % i, ps[i * k:(i + 1) * k]) for i in range(n) if ps[i * k:(i + 1) * k]]
+    return [ProgTarget("C12/programs/chunk%d" % i, ps[i::n]) for i in range(n) if ps[i::n]]
